@@ -60,6 +60,8 @@ func EvalMainModule(vm *r.VM, program *syntax.Program, varInputs r.ElementMap) (
 func evalProgram(vm *r.VM, program *syntax.Program, varInputs r.ElementMap) (r.Element, error) {
 	// 1. import libs
 	for _, importStmt := range program.ImportBlock {
+		// set current line (import statements are not executed via evalStatement)
+		vm.SetCurrentLine(importStmt.GetCurrentLine())
 		if err := evalImportStmt(vm, importStmt); err != nil {
 			return nil, err
 		}
